@@ -37,6 +37,13 @@ def _cases(tier):
     sub = strs[:8] + strs[8:72:4][:16]
     for a, b in itertools.combinations(sub, 2):
         yield {"k": "esc", "strings": [a, b]}
+    # wrapped literal sets that could be confused when their textual identity is ambiguous: {a<sep>b} vs {a, b}
+    singles = [s for s in strs if len(s) == 1] + ["ab", "..."]
+    for a in singles:
+        for b in singles:
+            for sep in (",", ", ", "/"):
+                for order in (0, 1):
+                    yield {"k": "esc", "strings": [a + sep + b, a, b], "lists": [[0], [1, 2]] if order == 0 else [[1, 2], [0]]}
     if tier != "quick":
         for t in itertools.product(['"', "\\", "'", "\n"], repeat=4):
             yield {"k": "esc", "strings": ["".join(t)]}
@@ -98,16 +105,20 @@ def execute(case):
         shape = ["c:" + (ch if ch.isalnum() else "U+%04X" % ord(ch)) for ch in sorted(set("".join(strs)))]
         for fw in ("pydantic", "dataclasses", "base", "sqlmodel"):
             try:
-                h, text = _render_and_read([{"a": s} for s in strs], fw, None)
+                if case.get("lists"):
+                    samples_e = [{"a": [strs[i] for i in grp]} for grp in case["lists"]]
+                else:
+                    samples_e = [{"a": s} for s in strs]
+                h, text = _render_and_read(samples_e, fw, None)
                 execs += 1
             except Exception as e:
                 viol.append(core.viol("module_with_literal_does_not_load", fw if fw != "sqlmodel" else "pydantic", shape, f"{strs!r}: {type(e).__name__}: {e}"))
                 break
             lits = _literals_in(h, [])
             got = set().union(*lits) if lits else None
-            if got != set(strs):
-                viol.append(core.viol("literal_values_differ_from_observed_strings", fw if fw != "sqlmodel" else "pydantic", shape,
-                                      f"observed {strs!r}, annotation {h!r}"))
+            if got != set(strs) and not (len(set(strs)) < len(strs) and got == set(strs)):
+                viol.append(core.viol("literal_values_differ_from_observed_strings", fw if fw != "sqlmodel" else "pydantic",
+                                      shape + (["wrapped_sets"] if case.get("lists") else []), f"observed {strs!r}, annotation {h!r}"))
                 break
             obs.append("esc-ok")
         return {"obs": list(set(obs)) or ["esc-bad"], "viol": viol, "execs": execs, "trans": execs, "outcome": "esc", "show": repr(strs),
